@@ -90,11 +90,15 @@ fn decl_name(e: &LibraryElementKind) -> Option<String> {
             DataTypeDeclarationKind::StructureInitialization(x) => x.type_name.name.original().clone(),
             DataTypeDeclarationKind::String(x) => x.type_name.name.original().clone(),
             DataTypeDeclarationKind::LateBound(x) => x.data_type_name.name.original().clone(),
+            #[allow(unreachable_patterns)]
+            _ => panic!("ironplc dsl variant unknown to the verification harness"),
         },
         LibraryElementKind::FunctionDeclaration(f) => f.name.original().clone(),
         LibraryElementKind::FunctionBlockDeclaration(f) => f.name.original().clone(),
         LibraryElementKind::ProgramDeclaration(f) => f.name.original().clone(),
         LibraryElementKind::ConfigurationDeclaration(f) => f.name.original().clone(),
+        #[allow(unreachable_patterns)]
+        _ => panic!("ironplc dsl variant unknown to the verification harness"),
     })
 }
 
@@ -108,6 +112,8 @@ fn valid_same_name(name: &str, like: &LibraryElementKind, variant: usize) -> Str
         LibraryElementKind::FunctionBlockDeclaration(_) => format!("FUNCTION_BLOCK {}\nVAR\nok_v : INT;\nEND_VAR\nok_v := 1;\nEND_FUNCTION_BLOCK\n", name),
         LibraryElementKind::ProgramDeclaration(_) => format!("PROGRAM {}\nVAR\nok_v : INT;\nEND_VAR\nok_v := 1;\nEND_PROGRAM\n", name),
         LibraryElementKind::ConfigurationDeclaration(_) => format!("CONFIGURATION {}\nRESOURCE ok_r ON ok_cpu\nPROGRAM ok_p : ok_t;\nEND_RESOURCE\nEND_CONFIGURATION\n", name),
+        #[allow(unreachable_patterns)]
+        _ => panic!("ironplc dsl variant unknown to the verification harness"),
     };
     if variant == 0 {
         return same_kind;
@@ -119,6 +125,8 @@ fn valid_same_name(name: &str, like: &LibraryElementKind, variant: usize) -> Str
         LibraryElementKind::FunctionBlockDeclaration(_) => 2,
         LibraryElementKind::ProgramDeclaration(_) => 3,
         LibraryElementKind::ConfigurationDeclaration(_) => 4,
+        #[allow(unreachable_patterns)]
+        _ => panic!("ironplc dsl variant unknown to the verification harness"),
     };
     let forms: Vec<(usize, String)> = vec![
         (0, format!("TYPE\n{} : (ok_x1_{n}, ok_x2_{n});\nEND_TYPE\n", name, n = name)),
